@@ -1,16 +1,17 @@
 #!/bin/bash
 # seedrun.sh <ID> <n> <check ids...>   — seeded change /tmp/mut-<ID>/patch<n>.diff (n=1 -> patch.diff), demo<n>.c
 # 1. confirm in a fresh scratch worktree: suite still 33/4, demo passes without and fails with the change
-# 2. run the given checks from a COPY of /verif (/var/tmp/verif-seed) against the patched worktree (VERIF_REPO), so that
+# 2. run the given checks from a COPY of /verif ($SEEDCOPY) against the patched worktree (VERIF_REPO), so that
 #    neither /repo nor /verif/lean are disturbed
 ID=$1; N=$2; shift 2
+SEEDCOPY=${SEEDCOPY:-/var/tmp/verif-seed}
 D=/tmp/mut-$ID
 if [ "$N" = 1 ]; then P=$D/patch.diff; DEMO=demo.c; else P=$D/patch$N.diff; DEMO=demo$N.c; fi
 [ -f $D/$DEMO ] || DEMO=$(ls $D | grep "^demo$N\|^demo\." | head -1)
 WT=/tmp/wts-$ID-$N
 OUT=/verif/notes/seedresults/$ID-$N.txt; mkdir -p /verif/notes/seedresults; : > $OUT
 git -C /repo worktree remove --force $WT >/dev/null 2>&1
-git -C /repo worktree add --detach $WT HEAD -q || exit 2
+for try in 1 2 3 4 5; do git -C /repo worktree add --detach $WT HEAD -q && break; sleep 3; done; [ -d $WT ] || exit 2
 ( cd $WT && meson setup _build >/dev/null 2>&1 && meson compile -C _build >/dev/null 2>&1 ) || echo "clean build FAILED" >> $OUT
 ( cd $D && RUN=$N ./run_demo.sh $WT $DEMO >/tmp/seed_clean_$ID$N.log 2>&1 ); echo "demo on clean tree: exit $?" >> $OUT
 git -C $WT apply "$P" 2>>$OUT || { echo "patch does not apply" >> $OUT; exit 2; }
@@ -19,10 +20,10 @@ git -C $WT apply "$P" 2>>$OUT || { echo "patch does not apply" >> $OUT; exit 2; 
 ( cd $D && RUN=$N ./run_demo.sh $WT $DEMO >/tmp/seed_mut_$ID$N.log 2>&1 ); echo "demo on changed tree: exit $? ($(tail -1 /tmp/seed_mut_$ID$N.log | cut -c1-150))" >> $OUT
 rm -rf $WT/_build
 for c in "$@"; do
-  r=$(cd /var/tmp/verif-seed && VERIF_REPO=$WT ./check $c 2>&1 | grep -E "^VIOLATION|exit [01]" | tr '\n' '|' | cut -c1-400)
+  r=$(cd $SEEDCOPY && VERIF_REPO=$WT ./check $c 2>&1 | grep -E "^VIOLATION|exit [01]" | tr '\n' '|' | cut -c1-400)
   echo "CHECK $c: $r" >> $OUT
   rp=$(echo "$r" | grep -o "replay=[^ |]*" | head -1 | cut -d= -f2)
-  if [ -n "$rp" ] && [ -f /var/tmp/verif-seed/$rp ]; then echo "  replay head: $(grep -v '^#' /var/tmp/verif-seed/$rp | head -2 | tr '\n' ';' | cut -c1-200) $(grep '^# theorems\|^# correspondence\|^# expected' /var/tmp/verif-seed/$rp | head -2 | tr '\n' ';' | cut -c1-300)" >> $OUT; fi
+  if [ -n "$rp" ] && [ -f $SEEDCOPY/$rp ]; then echo "  replay head: $(grep -v '^#' $SEEDCOPY/$rp | head -2 | tr '\n' ';' | cut -c1-200) $(grep '^# theorems\|^# correspondence\|^# expected' $SEEDCOPY/$rp | head -2 | tr '\n' ';' | cut -c1-300)" >> $OUT; fi
 done
 git -C /repo worktree remove --force $WT
 cat $OUT
